@@ -89,6 +89,13 @@ impl PropImpl for C09 {
         Some(Case { text: t.to_string(), origin: "text" })
     }
     fn decode(&self, ctx: &mut Ctx, t: &mut Tape) -> Case {
+        let huge = t.chance(1, 40000);
+        if huge && !ctx.light {
+            // a field of up to a megabyte (parsers with step counters, recursion or quadratic behaviour); larger inputs do not fit the per-case budgets reliably
+            let unit = *t.pick(&["libfoo-dev (>= 1:2.0-1~) [amd64 !i386] <!nocheck>, ", "a | b, ", "x (= 1), ${misc:Depends}, ", "@@ "]);
+            let target = *t.pick(&[256usize, 512, 1024]) * 1024;
+            return Case { text: unit.repeat(target / unit.len()), origin: "huge" };
+        }
         match t.below(3) {
             0 => {
                 let text = text::weighted_text(t, WEIGHTED, 300);
@@ -117,6 +124,7 @@ impl PropImpl for C09 {
             "prefix-of-field" => "origin:prefix-of-field",
             "mutated-field" => "origin:mutated-field",
             "text" => "origin:text",
+            "huge" => "origin:field-of-up-to-a-megabyte",
             _ => "origin:random",
         });
         let s = &case.text;
